@@ -67,7 +67,7 @@ func c02FlipBit(v *big.Int, i int) *big.Int {
 func c02Run(t *testing.T, sub, keyA, keyB string, maxLen int, bitStride int, qb, tb time.Duration) {
 	r := vkit.Start(t, "C02", sub, qb, tb)
 	defer r.Finish()
-	r.Rule = "compositions of 1..4 builders and one of 7 (more than 40 challenge contributions) (disclosure, +nonrev, +range, issuance, +blind) over 1-2 keys x both session kinds; neighbours: every single-bit flip (stride s) of context and nonce, +-1, 0, swapped, flag flipped, every key permutation/substitution, every list permutation (keys alike or not), every proper sub-list (for the long list: neighbour transpositions, end swap, reversal; prefixes, suffixes, one member dropped), every duplication, every splice with a list of another session, empty list; also each ProofD/ProofU singly; non-trivial = neighbour that differs from (T,L) by value; oracle: accepted iff unchanged"
+	r.Rule = "compositions of 1..4 builders and one of 7 (more than 40 challenge contributions) (disclosure, +nonrev, +range, issuance, +blind) over 1-2 keys x both session kinds; neighbours: every single-bit flip (stride s) of context and nonce, +-1, 0, swapped, flag flipped, every key permutation/substitution, every list permutation (keys alike or not), every proper sub-list (for the long list: neighbour transpositions, end swap, reversal; prefixes, suffixes, one member dropped), every duplication, every splice with a list of another session, empty list; also each ProofD/ProofU singly; non-trivial = neighbour that differs from (T,L) by value; oracle: accepted iff unchanged; the caller's context and nonce objects are unchanged by verification"
 	vfInstallEnv(t, "C02/"+sub, r.Seed)
 	secrets := []*big.Int{vfTag("c02-secret")}
 	r.Bounds["bit_stride"] = bitStride
@@ -106,7 +106,14 @@ func c02Run(t *testing.T, sub, keyA, keyB string, maxLen int, bitStride int, qb,
 				r.Eval()
 				var ok bool
 				l = vsCloneList(l)
+				cText, nText := c.String(), n.String()
 				pan, msg := vkit.Guard(func() { ok = l.Verify(ks, c, n, sig, nil) })
+				if c.String() != cText || n.String() != nText {
+					// the verifier's own session values are the caller's objects: verification must leave them alone
+					r.Violate("C02|verification-changed-context-or-nonce", fmt.Sprintf("%s (%s): context or nonce object changed by ProofList.Verify", caseBase, what), map[string]any{"composition": comp.name, "neighbour": what})
+					c.SetString(cText, 10)
+					n.SetString(nText, 10)
+				}
 				if changed {
 					r.Nontrivial(caseBase + "|" + what)
 				}
